@@ -164,6 +164,8 @@ def plan(tier, rng, sl, nslices, stats):
             yield gfa.random_case(rng, max_states=rng.choice([3, 4, 5, 6]))
     for i in range(max(4, cfg["random"] // 500)):
         yield dense_case(rng)
+    for i in range(max(6, cfg["random"] // 100)):
+        yield gfa.large_case(rng)
     if cfg.get("exhaustive"):
         for (n, k) in ((1, 1), (1, 2), (2, 1)):
             tot = gfa.exhaustive_count(n, k)
